@@ -189,6 +189,13 @@ class Ctx:
             self.coq_time = dt
             rep = parse_assumptions(out)
             self.assumption_report.update(rep)
+            # every property theorem must be closed under the global context: an axiom (even one of the standard
+            # library) that creeps in is reported, not silently accepted
+            for th, txt in rep.items():
+                if "Axioms:" in txt and "Closed under the global context" not in txt.split("Axioms:")[0]:
+                    self.obligation("theorem %s depends on no axiom" % th, False, txt[:400])
+                    self.violation("proof:axioms:" + th, "Print Assumptions %s no longer says 'Closed under the global context': %s" % (th, txt[:300]),
+                                   {"broken": "Print Assumptions", "theorem": th, "assumptions": txt[:2000]}, found_input=False)
             if rc != 0:
                 m = re.findall(r'File "\./([^"]+)", line (\d+).*?\n(Error:.*?)(?:\n\n|\nmake|\Z)', out, flags=re.S)
                 det = "; ".join("%s:%s %s" % (a, b, c.replace("\n", " ")[:300]) for a, b, c in m) or out[-1500:]
